@@ -4,6 +4,7 @@ Source terms (Atom, VariableTerm, Functor, NumeralTerm, ListTerm, ListPairTerm o
 constructors of the SMT datatype TA; emitted constructor-call expressions are CE; `self.head_args_by_pos` is
 modelled by three components (names, is-None flags, length)."""
 import ast
+import re
 
 from .core import SV, NONE, OutOfSubset, AND, OR, NOT, EQ, ITE, smt_str
 from .exec import Exc
@@ -301,7 +302,25 @@ class ClauseTheory(CompilerTheory):
             if lst.sort != 'TAL':
                 raise OutOfSubset('comprehension over %s' % lst.sort, e)
             for st3, rest in ex.eval_args(e.elt.args[1:], st2):
-                outs.append((st3, SV('CEL', '(%s %s)' % (c.maps, lst.e))))
+                if isinstance(rest, Exc):
+                    outs.append((st3, rest))
+                    continue
+                ok = st3.fork()
+                # the callee's further postconditions, element by element (stated with the list-level spec function of the contract);
+                # an omitted optional argument has the contract's default
+                extra = list(rest)
+                for pn, ps in c.params[2 + len(extra):]:
+                    d = ps.split(':', 2)
+                    if ps.startswith('Opt:') and len(d) > 2 and re.fullmatch(r'-?\d+', d[2]):
+                        extra.append(SV('Int', d[2]))
+                for tmpl in c.ghost.get('maps_ensures', []):
+                    f = tmpl.replace('{l}', lst.e)
+                    for i_, a_ in enumerate(extra):
+                        f = f.replace('{arg%d}' % (i_ + 1), a_.e)
+                    if '{arg' in f:
+                        raise OutOfSubset('lifted postcondition needs an argument that is not given', e)
+                    ok.assume(f)
+                outs.append((ok, SV('CEL', '(%s %s)' % (c.maps, lst.e))))
                 for cls_, cond in c.raises.items():
                     outs.append((st3.fork().tag('comprehension.raises:' + cls_), Exc(cls_)))
         return outs
